@@ -2,6 +2,7 @@ use crate::report::Opts;
 
 mod c01;
 mod c02;
+mod c03;
 mod c04;
 mod c06;
 mod c09;
@@ -18,6 +19,7 @@ pub fn run(opts: &Opts) -> i32 {
     match opts.prop.as_str() {
         "C01" => c01::run(opts),
         "C02" => c02::run(opts),
+        "C03" => c03::run(opts),
         "C04" => c04::run(opts),
         "C05" => walkprops::run(opts, "C05"),
         "C06" => c06::run(opts),
